@@ -182,6 +182,20 @@ func (in *instrumenter) pkg(p *packages.Package, opts Opts) error {
 
 func (rw *rewriter) count(rule string) { rw.in.res.Rewrites[rule]++ }
 
+// siteExpr is like site but names the accessed expression too.
+func (rw *rewriter) siteExpr(n ast.Node, loc ast.Expr) ast.Expr {
+	lit := rw.site(n).(*ast.BasicLit)
+	txt := types.ExprString(loc)
+	if len(txt) > 60 {
+		txt = txt[:60]
+	}
+	if !strings.Contains(txt, "simrt.") {
+		i := len(rw.in.res.Sites) - 1
+		rw.in.res.Sites[i] += " " + txt
+	}
+	return lit
+}
+
 func (rw *rewriter) site(n ast.Node) ast.Expr {
 	pos := rw.in.fset.Position(n.Pos())
 	short := rw.pkg.PkgPath
